@@ -110,9 +110,26 @@ other("C07", "frame of CrossCheckingAccurate.disparity_checking and of the valid
 other("C09", "frame of cv_masked proved: masking writes the cost volume and its validity mask only -- not the caller's disparity "
       "grids nor the images (" + FRAME_NOTE + "); interval independence of the costs and final disparities inside the interval:",
       trusted=FRAME_TRUSTED)
-other("C10", "frames of the three filters and of the filter_run callback proved for all inputs: median and bilateral write the "
-      "disparity map (and attributes) only, hence never the validity mask; median_for_intervals writes the interval bands and the "
-      "validity mask (bit 11) only (" + FRAME_NOTE + "); the filtered values:", trusted=FRAME_TRUSTED)
+reg("C10", "proof",
+    "median: MedianFilter.median_filter proved for every image size and every odd filter size against the property -- NaN "
+    "(invalid) pixels stay NaN, valid pixels closer to an edge than the radius keep their value, every other valid pixel is the "
+    "NaN-ignoring median of ITS OWN filter_size window whatever the 100-pixel processing blocks (loop invariants over the "
+    "np.array_split chunk loops; as_strided window views with a memory-safety obligation); MedianFilter.filter_disparity "
+    "proved over symbolic datasets, using median_filter's contract: validity mask unchanged, invalid pixels untouched, edge "
+    "pixels untouched, every other valid pixel non-NaN and between two valid disparities of its window.  bilateral: "
+    "filter_bilateral proved for every image size and sigma_space -- window width min(rows, cols, int(3 sigma_space + 1)), NaN "
+    "stays NaN, edges untouched, every other valid pixel is bilateral_kernel applied to its own window whatever the 50-pixel "
+    "blocks; filter_disparity: mask unchanged, invalid and edge pixels untouched.  Frames of the three filters and of the "
+    "filter_run callback (" + FRAME_NOTE + ").  By the bounded stand-in only: the numeric value of bilateral_kernel (Gaussian "
+    "weighted mean), median_for_intervals values and bit 11, whole pipelines.",
+    trusted=FRAME_TRUSTED + [
+        "assumed contract: np.lib.stride_tricks.as_strided(a, shape=(H-h+1, W-w+1, h, w), strides=a.strides+a.strides)[i,j,p,q] is a[i+p, j+q]",
+        "assumed contract: np.array_split(a, np.arange(c, n, c), axis) yields len(arange)+1 views a[min(jc,L):min((j+1)c,L)], the last up to L",
+        "assumed contract: np.nanmedian of a window is NaN iff all elements are NaN, else a non-NaN value between two non-NaN "
+        "elements, and a function of the window contents only",
+        "assumption: BilateralFilter.bilateral_kernel(windows, kernel, sigma_color, offset)[i, j] depends on windows[i, j, :, :] and "
+        "the scalar arguments only (its values are checked by the bounded stand-in)"],
+    assumptions=["filter_size is odd and not larger than the image (even sizes are rejected by check_conf: C05)"])
 other("C12", "frames of the four confidence_prediction methods and of the cost_volume_confidence_run callback proved: a band is "
       "appended to the confidence variable of the cost volume / disparity datasets, the cost volume values, the images and the "
       "existing arrays are not written (" + FRAME_NOTE + "); prange race-freedom of the kernels (C18); glue contract of the "
